@@ -295,9 +295,17 @@ pub mod __verif_dump {
             };
             let cj = bytecode(&code);
             if run {
-                let r = outcome(vm.run(code));
+                let vmr = &mut vm;
+                let pr = std::panic::catch_unwind(std::panic::AssertUnwindSafe(move || outcome(vmr.run(code))));
                 let out = crate::__verif_io::take();
-                res.push(format!("{{\"ast\":{},\"code\":{},\"result\":{},\"output\":{}}}", astj, cj, r, jstr(&out)));
+                match pr {
+                    Ok(r) => res.push(format!("{{\"ast\":{},\"code\":{},\"result\":{},\"output\":{}}}", astj, cj, r, jstr(&out))),
+                    Err(_) => {
+                        // the machine panicked: the session ends here
+                        res.push(format!("{{\"ast\":{},\"code\":{},\"result\":{{\"panic\":\"?\"}},\"output\":{}}}", astj, cj, jstr(&out)));
+                        break;
+                    }
+                }
             } else {
                 res.push(format!("{{\"ast\":{},\"code\":{}}}", astj, cj));
             }
